@@ -413,7 +413,7 @@ func (t *Uint64Tree) Insert(key uint64, value interface{}) {
 		child.lock()
 
 		if index == 0 {
-			if smallest := child.smallest(); key < smallest {
+			if smallest := parent.runts[0]; key < smallest {
 				// preemptively update smallest value
 				parent.runts[0] = key
 			}
@@ -546,7 +546,7 @@ func (t *Uint64Tree) Update(key uint64, callback func(interface{}, bool) interfa
 		child.lock()
 
 		if index == 0 {
-			if smallest := child.smallest(); key < smallest {
+			if smallest := parent.runts[0]; key < smallest {
 				// preemptively update smallest value
 				parent.runts[0] = key
 			}
